@@ -484,3 +484,38 @@ pub fn subjects(format: &str, lits: &[&str]) -> Vec<Box<dyn Subject>> {
     v.push(make(&format!("{format}-skip"), lits[0]));
     v
 }
+
+/// Public convenience constructors of the AIGER parsers (u32 literals): observation of `parse()`.
+pub fn via_constructors(format: &str, input: &[u8]) -> Vec<(&'static str, Vec<String>, End)> {
+    use std::io::{BufRead, BufReader};
+    let mut out = Vec::new();
+    let prefilled = |cap: usize| {
+        let mut br = BufReader::with_capacity(cap, input);
+        let _ = br.fill_buf();
+        br
+    };
+    if format == "aag" {
+        let mut run = |name: &'static str, p: Result<ascii::Parser<u32>, ParseError>| {
+            let r = p.and_then(|p| p.parse());
+            match r {
+                Ok(a) => out.push((name, vec![show_aig(&a)], End::Clean)),
+                Err(e) => out.push((name, vec![], end_of(e))),
+            }
+        };
+        run("from_read", ascii::Parser::<u32>::from_read(input, ascii::Config::default()));
+        run("from_buf_reader", ascii::Parser::<u32>::from_buf_reader(prefilled(6), ascii::Config::default()));
+        run("from_boxed_dyn_read", ascii::Parser::<u32>::from_boxed_dyn_read(Box::new(input), ascii::Config::default()));
+    } else {
+        let mut run = |name: &'static str, p: Result<binary::Parser<u32>, ParseError>| {
+            let r = p.and_then(|p| p.parse());
+            match r {
+                Ok(a) => out.push((name, vec![show_ordered(&a)], End::Clean)),
+                Err(e) => out.push((name, vec![], end_of(e))),
+            }
+        };
+        run("from_read", binary::Parser::<u32>::from_read(input, binary::Config::default()));
+        run("from_buf_reader", binary::Parser::<u32>::from_buf_reader(prefilled(6), binary::Config::default()));
+        run("from_boxed_dyn_read", binary::Parser::<u32>::from_boxed_dyn_read(Box::new(input), binary::Config::default()));
+    }
+    out
+}
